@@ -248,7 +248,7 @@ func checkRecoverDiscipline(r *Run, prog *Program, pfx string) {
 	for _, fa := range prog.FieldAccesses(prog.ModuleFuncs()) {
 		if fa.Struct.Obj().Name() == "parser" && fa.Field == "recover" && fa.Kind == "write" {
 			ok := false
-			if fa.Fn.Name() == "newParser" {
+			if np := prog.GrammarSSA.Func("newParser"); np != nil && ctorPart(prog, np, fa.Fn) {
 				if c, isC := fa.Val.(*ssa.Const); isC && c.Value != nil && c.Value.Kind() == constant.Bool && constant.BoolVal(c.Value) {
 					ok = true
 				}
